@@ -107,6 +107,7 @@ struct World<'a> {
     sbx: &'a Sandbox,
     ws: Workspace,
     runner: ToolRunner,
+    plain: ToolRunner, // the same tools without a checkpoint hook (for edits of the store itself)
     rt: &'a tokio::runtime::Runtime,
     seq: u64,
     cks: Vec<Ck>,
@@ -270,6 +271,42 @@ impl<'a> World<'a> {
                 }
                 let idx = (op["idx"].as_u64().unwrap_or(0) as usize) % self.cks.len();
                 self.do_rewind(run, idx, kind == "rewind_runner", &before);
+            }
+            "tamper" => {
+                // the store lies inside the workspace: the file tools can reach a stored copy.  `how`: write (other
+                // bytes through the real write tool), append (likewise), delete (the copy is gone)
+                if self.cks.is_empty() {
+                    return;
+                }
+                let idx = (op["idx"].as_u64().unwrap_or(0) as usize) % self.cks.len();
+                let id = self.cks[idx].id.clone();
+                let rec: Vec<(String, bool)> = self.ws.list_checkpoints("s1").ok().and_then(|l| l.into_iter().find(|c| c.id == id)).map(|c| c.files.iter().map(|f| (f.path.clone(), f.exists)).collect()).unwrap_or_default();
+                let stored: Vec<&(String, bool)> = rec.iter().filter(|(_, e)| *e).collect();
+                if stored.is_empty() {
+                    return;
+                }
+                let (rel, _) = stored[(op["which"].as_u64().unwrap_or(0) as usize) % stored.len()].clone();
+                let store_rel = format!(".rip/checkpoints/s1/{id}/files/{rel}");
+                let how = op["how"].as_str().unwrap_or("write");
+                let content = op["content"].as_str().unwrap_or("tampered\n").to_string();
+                let now: Option<Vec<u8>> = match how {
+                    "delete" => {
+                        let _ = std::fs::remove_file(self.sbx.root.join(&store_rel));
+                        None
+                    }
+                    _ => {
+                        let mut args = json!({"path": store_rel, "content": content, "atomic": false});
+                        if how == "append" {
+                            args["append"] = json!(true);
+                        }
+                        let _ = self.rt.block_on(self.plain.run("s1", &mut self.seq, ToolInvocation { name: "write".into(), args, timeout_ms: None }));
+                        std::fs::read(self.sbx.root.join(&store_rel)).ok()
+                    }
+                };
+                Self::bump(run, &format!("tamper-{how}"));
+                let after = ws_listing(&self.sbx.root);
+                let opn = format!("OTamper {} {} {}", idx, coq_str(&rel), match &now { Some(b) => format!("(Some {})", ws_common::coq_bytes(b)), None => "None".into() });
+                self.push_op(run, opn, &after);
             }
             "edit" => {
                 let p = self.sbx.root.join(op["path"].as_str().unwrap_or("x"));
@@ -665,6 +702,11 @@ fn gen_op(r: &mut Rng, root: &std::path::Path, n_cks: usize, step: u64) -> Value
         return json!({"op": if r.chance(1, 3) { "create_runner" } else { "create" }, "raws": raws});
     }
     if k < 6 && n_cks > 0 {
+        if r.chance(1, 8) {
+            // an edit that reaches a stored copy (the store lies inside the workspace)
+            let how = *r.pick(&["write", "write", "append", "delete"]);
+            return json!({"op": "tamper", "idx": r.below(n_cks as u64), "which": r.below(4), "how": how, "content": format!("tampered v{step}\n")});
+        }
         return json!({"op": if r.chance(1, 3) { "rewind_runner" } else { "rewind" }, "idx": r.below(n_cks as u64)});
     }
     if k < 8 {
@@ -807,10 +849,11 @@ fn run_case(rt: &tokio::runtime::Runtime, case: &Value) -> Value {
     let ws = Workspace::new(&sbx.root).expect("workspace");
     let hook = ripd::verif::workspace_checkpoint_hook(sbx.root.clone()).expect("hook");
     let runner = ToolRunner::with_checkpoint_hook(registry(&sbx.root), 1, hook);
+    let plain = ToolRunner::new(registry(&sbx.root), 1);
     std::env::set_current_dir(sbx.cwd_dir(cwd)).expect("chdir");
     let root_s = sbx.root.to_string_lossy().to_string();
     let init_listing = ws_listing(&sbx.root);
-    let mut w = World { sbx: &sbx, ws, runner, rt, seq: 0, cks: vec![], root_s: root_s.clone(), last: init_listing.clone() };
+    let mut w = World { sbx: &sbx, ws, runner, plain, rt, seq: 0, cks: vec![], root_s: root_s.clone(), last: init_listing.clone() };
     let mut run = Run::default();
     if let Some(ops) = case.get("ops").and_then(|o| o.as_array()) {
         for op in ops {
@@ -917,7 +960,7 @@ fn main() {
     }
     let verif_root = a.extra.get("verif").cloned().unwrap_or_else(|| env!("CARGO_MANIFEST_DIR").to_string() + "/..");
     let mut res = RunResult::new("C14", &a);
-    res.rule = "cases = (initial workspace, history, process cwd): 3-10 operations drawn from checkpoint create (Workspace API / ToolRunner + real hook; 1-4 paths: existing, missing, nested, './', '//', '/./', trailing '/', absolute inside the root, directories, the root, '..' and outside paths), harness edits (write, delete, mkdir, file replaced by a directory and back, rmtree), write (atomic / plain / append / append without create) and apply_patch (add, update, move, delete) through ToolRunner::run with auto-checkpoints - path arguments and patch headers decorated (leading / trailing blanks incl. unicode blanks and newlines, './', '//', '/./', trailing '/', backslashes, ...), each call followed (3 of 4) by a rewind to its own auto checkpoint judged by effect (whole tree before the call = tree after the rewind) - and rewinds to any earlier checkpoint in any order; workspaces hold siblings of the targets (<stem>.tmp, <name>.tmp, <name>~, .<name>.swp, <name>.tmp-x, <name>.bak, ...); a systematic block runs every single decoration x target x tool; cwd in {root, sibling, parent}; non-trivial = at least one successful create and one rewind".into();
+    res.rule = "cases = (initial workspace, history, process cwd): 3-10 operations drawn from checkpoint create (Workspace API / ToolRunner + real hook; 1-4 paths: existing, missing, nested, './', '//', '/./', trailing '/', absolute inside the root, directories, the root, '..' and outside paths), harness edits (write, delete, mkdir, file replaced by a directory and back, rmtree), write (atomic / plain / append / append without create) and apply_patch (add, update, move, delete) through ToolRunner::run with auto-checkpoints - path arguments and patch headers decorated (leading / trailing blanks incl. unicode blanks and newlines, './', '//', '/./', trailing '/', backslashes, ...), each call followed (3 of 4) by a rewind to its own auto checkpoint judged by effect (whole tree before the call = tree after the rewind) - and rewinds to any earlier checkpoint in any order; stored copies changed / appended to through the write tool or removed (the store lies inside the workspace); workspaces hold siblings of the targets (<stem>.tmp, <name>.tmp, <name>~, .<name>.swp, <name>.tmp-x, <name>.bak, ...); a systematic block runs every single decoration x target x tool; cwd in {root, sibling, parent}; non-trivial = at least one successful create and one rewind".into();
     let n = if a.thorough() { 8000 } else { 350 };
     let mut r = Rng::new(a.seed);
     let mut jobs: Vec<Value> = if let Some(rp) = &a.replay {
